@@ -44,6 +44,16 @@ def run(ctx):
             if not any(s['act']['op'] == 'SaveRestoreViewer' for s in steps) or True:
                 if (k + ctx.seed) % (12 if quick else 2) == 0:
                     items.append({'part': 1, 'viewer': A.VIEWERS[1 + (k // 12) % 4], 'steps': steps})
+        # one dataset, one group: every history on each matplotlib viewer
+        res, g = tlc.dump_graph(wd, 'MC_Viewer.tla', 'GEN_Viewer1_one.cfg', timeout=3000)
+        ctx.add_tlc('E0+E1 generation GEN_Viewer1_one.cfg', res, 'GEN_Viewer1_one.cfg')
+        one = [[{'act': to_json(g.state(n)['act']), 'st': _st1(g.state(n))} for n in p[1:]] for p in g.behaviours()]
+        del g
+        for k, steps in enumerate(one):
+            for j, kind in enumerate(A.VIEWERS[1:]):
+                if quick and kind != 'image' and (k + j + ctx.seed) % 3 != 0:
+                    continue
+                items.append({'part': 1, 'viewer': kind, 'steps': steps})
         n, depth = (60, 14) if quick else (1500, 25)
         res, behs = tlc.simulate(wd, 'MC_Viewer.tla', 'SIM_Viewer1.cfg', num=n, depth=depth, seed=ctx.seed + 1, timeout=3000)
         for k, sl in enumerate(behs):
